@@ -288,6 +288,11 @@ def _expand(fi: FuncInfo, caller_names: set[str], st: ast.stmt, select: Callable
         if p not in rebinds and isinstance(arg, (ast.Name, ast.Constant)):
             subst[p] = arg
             continue
+        # a pure expression (no call, no comprehension, nothing conditional) over caller names the helper body cannot rebind
+        # stands for itself: `h(item, indent + 1)` reads `indent + 1` wherever h reads its parameter
+        if p not in rebinds and not any(isinstance(x, (ast.Call, ast.Lambda, ast.ListComp, ast.SetComp, ast.DictComp, ast.GeneratorExp, ast.NamedExpr, ast.Await, ast.Yield, ast.YieldFrom)) for x in ast.walk(arg)) and not ({x.id for x in ast.walk(arg) if isinstance(x, ast.Name)} & ((helper_locals | set(params)) - {p})):
+            subst[p] = arg
+            continue
         tgt = p
         if p in caller_names:
             tgt = p + "__" + h.name.strip("_")
